@@ -88,7 +88,7 @@ theorem parse_case_invariant_reject (d : Gen.D) (f : Nat) (ts ts' : List Tok) (h
 /-- the kind of a statement (its constructor) -/
 def kind : Stmt → Nat
   | .select _ => 0 | .insertValues _ _ => 1 | .insertSelect _ _ => 2 | .update .. => 3 | .delete .. => 4 | .createTable _ => 5
-  | .createTableAs _ _ => 6 | .dropTable _ _ => 7 | .set _ => 8 | .analyze .. => 9 | .alter _ _ => 10 | .msck _ => 11 | .use _ => 12
+  | .createTableAs _ _ _ => 6 | .dropTable _ _ => 7 | .set _ => 8 | .analyze .. => 9 | .alter _ _ => 10 | .msck _ => 11 | .use _ => 12
   | .truncate _ => 13 | .showDatabases => 14 | .showTables => 15 | .showColumns _ _ => 16
 theorem kind_upSt0 (s : Stmt) : kind (upSt0 s) = kind s := by cases s <;> rfl
 /-- the same number of statements, of the same kinds, in the same order -/
